@@ -38,30 +38,6 @@ structure Views [Zero α] [DecidableEq α] (t : Src α) (csr csc : CS α) : Prop
   cscDense : csc.toDense = transposeGrid t.samp.length t.rows
   cscNZ : csc.NoStoredZeros
 
-def MdVal.isAtom : MdVal α → Bool
-  | .text _ => true | .int _ => true | .float _ => true | .bool _ => true | _ => false
-
-def goodList : MdVal α → Bool
-  | .list l => !l.isEmpty && l.all (fun s => s != "")
-  | _ => false
-
-/-- the per-category-homogeneous domain of the property: lists of non-empty text under the
-reserved hierarchical names, otherwise all text / all integer / all float / all boolean -/
-def colDomain (k : String) (col : List (MdVal α)) : Bool :=
-  if isSpecial k then col.all goodList || (k == "taxonomy" && col.all MdVal.isText)   -- or flat 'a; b' texts
-  else col.all MdVal.isText || col.all MdVal.isInt || col.all MdVal.isFloat || col.all MdVal.isBool
-
-/-- metadata of one axis is in the domain: present on no ID or on every ID with the same categories
-(a dict: distinct keys; at least one), escaped names distinct, every category homogeneous -/
-def mdDomain : Option (List (MdE α)) → Bool
-  | none => true
-  | some [] => false
-  | some (e0 :: es) =>
-    !(keysOf e0).isEmpty && decide (keysOf e0).Nodup &&
-    es.all (fun e => decide (keysOf e).Nodup && sameKeys e e0 && (keysOf e).length == (keysOf e0).length) &&
-    decide ((keysOf e0).map sanitize).Nodup &&
-    (keysOf e0).all (fun k => colDomain k (colOf (e0 :: es) k))
-
 /-! ### list facts -/
 
 theorem mapM_ok_map {β γ : Type} (f : β → Except Err γ) (g : β → γ) (l : List β)
